@@ -103,6 +103,49 @@ def run_hash(ctx, i):
     ctx.eq('C06/salsa20/hash', ctx.attempt(lambda: Salsa20().hash(X)), ('ok', exp))
 
 
+WORDS = [0, 1, 2, 0x7fffffff, 0x80000000, 0xfffffffe, 0xffffffff, 0x0000ffff, 0xffff0000, 0x01234567]
+
+
+def pts_qr(tier):
+    import itertools
+    return [(c, a, b) for c in ('salsa20', 'chacha') for a in range(len(WORDS)) for b in range(len(WORDS))]
+
+
+def ref_qr(c, y):
+    M = 0xffffffff
+    rol = RS.rol
+    a, b, cc, d = y
+    if c == 'salsa20':
+        z1 = b ^ rol((a + d) & M, 7)
+        z2 = cc ^ rol((z1 + a) & M, 9)
+        z3 = d ^ rol((z2 + z1) & M, 13)
+        z0 = a ^ rol((z3 + z2) & M, 18)
+        return [z0, z1, z2, z3]
+    a = (a + b) & M; d = rol(d ^ a, 16); cc = (cc + d) & M; b = rol(b ^ cc, 12)
+    a = (a + b) & M; d = rol(d ^ a, 8); cc = (cc + d) & M; b = rol(b ^ cc, 7)
+    return [a, b, cc, d]
+
+
+def run_qr(ctx, pt):
+    """the exposed quarter-round on every 4-tuple over a boundary word alphabet (words that are 0, all-ones, top bit, ...)"""
+    from crysp.poly import Poly
+    from crysp.salsa20 import Salsa20
+    from crysp.chacha import Chacha
+    c, ia, ib = pt
+    o = Salsa20() if c == 'salsa20' else Chacha()
+    for wc in WORDS:
+        for wd in WORDS:
+            y = [WORDS[ia], WORDS[ib], wc, wd]
+            r = ctx.attempt(lambda: [int(v) for v in o.quarterround(Poly(y, 32)).ival])
+            ctx.eq('C06/%s/quarterround' % c, r, ('ok', ref_qr(c, y)))
+    # whole double rounds / core on states made of boundary words
+    for shift in range(0, len(WORDS), 3):
+        x = [WORDS[(ia + ib * 3 + i * 7 + shift) % len(WORDS)] for i in range(16)]
+        exp = (RS.salsa_core if c == 'salsa20' else RS.chacha_core)(x, 2)
+        r = ctx.attempt(lambda: [int(v) for v in o.core(Poly(x, 32), dround=1).ival])
+        ctx.eq('C06/%s/core-on-boundary-words' % c, r, ('ok', exp))
+
+
 def pts_carry(tier):
     pts = []
     for c in ('salsa20', 'chacha'):
@@ -197,8 +240,17 @@ class RC4Sys(HSystem):
         ctx.eq('C06/rc4/continuous-stream/state', self.canon(o), (tuple(S), i, j))
 
 
+class RC4Long(RC4Sys):
+    """pieces longer than 64 KiB followed by further calls (depth 2)"""
+    SIZES = (65537, 7)
+    depth = {'quick': 2, 'thorough': 2}
+
+    def events(self, o):
+        return [('enc', n) for n in self.SIZES] + [('keystream', 5)]
+
+
 def systems(tier):
-    d = {'key5': RC4Sys(bytes.fromhex('0102030405')), 'key16': RC4Sys(expander(16, 9))}
+    d = {'key5': RC4Sys(bytes.fromhex('0102030405')), 'key16': RC4Sys(expander(16, 9)), 'key7-long-pieces': RC4Long(b'seven77')}
     if tier == 'thorough':
         d['key1'] = RC4Sys(b'\x80')
         d['key256'] = RC4Sys(expander(256, 3))
@@ -219,11 +271,13 @@ def subchecks():
         Sub('keys-nonces', pts_keys, run_keys, engine='P', exhaustive=False,
             bound='rounds {8,20}: single-bit key family of each size (quick: every 8th) and single-bit nonce family (quick: every 4th), |M|=65'),
         Sub('salsa-core', pts_hash, run_hash, engine='P', exhaustive=False, bound='Salsa20().hash on the 512-bit single-bit family + patterns (quick: every 6th)'),
+        Sub('quarter-rounds', pts_qr, run_qr, engine='D',
+            bound='Salsa20 and ChaCha quarterround on every 4-tuple over the 10-word boundary alphabet {0,1,2,2^31-1,2^31,2^32-2,2^32-1,0000ffff,ffff0000,01234567} (10^4 each); one double round + feed-forward on 4 states of boundary words per point'),
         Sub('counter-carry', pts_carry, run_carry, engine='H',
             bound='via the guarded hook: keystream started at block 2^32-2, 2^32-1, 2^32, 2^33-1, 2^48+5, 2^64-2; 4 (2) blocks vs reference with the 64-bit counter split over two words'),
         Sub('rc4-keys', pts_rc4keys, run_rc4keys, engine='P', bound='every key length 1..256 (ramp) + 3 patterns at {1,5,16,255,256}: key-schedule state, 40 bytes, dec(enc), empty message'),
         hsub('rc4-histories', systems, lambda tier: 3,
-             bound='one RC4 object; events enc(m) |m| in {0,1,2,3,255,256,257,600}, keystream(0/1/256), dec(5 bytes); all sequences to depth 3 for 2 keys (thorough 4 keys), deduplicated by (S,i,j); output = reference stream slice, state = reference state after the consumed total'),
+             bound='one RC4 object; events enc(m) |m| in {0,1,2,3,255,256,257,600}, keystream(0/1/256), dec(5 bytes); all sequences to depth 3 for 2 keys (thorough 4 keys), deduplicated by (S,i,j); output = reference stream slice, state = reference state after the consumed total; one more key with a piece of 65537 bytes followed by further calls (depth 2)'),
     ]
 
 
